@@ -217,12 +217,12 @@ SIGS = {  # name -> (first?, [arg types...], variadic?)  -- only used to *genera
     "one": (True, [], False), "num": (True, ["int"], False), "hello": (True, ["str"], False), "vals": (True, [], True),
     "add": (False, ["int"], False), "cat": (False, ["str"], False), "rep": (False, ["int", "str"], False),
     "argsc": (False, ["str", "int"], True), "fl": (False, ["float"], False), "bo": (False, ["bool"], False), "ident": (False, [], False),
-    "boom": (False, [], False), "vol": (False, [], False), "nocache": (False, [], False), "app": (False, ["str"], False),
+    "boom": (False, [], False), "vol": (False, [], False), "nvol": (False, [], False), "nocache": (False, [], False), "app": (False, ["str"], False),
     "attr1": (False, [], False), "attr2": (False, [], False), "getvar": (False, ["var"], False), "state_variable": (False, ["var"], False),
     "let": (False, ["var", "str"], False), "flag": (False, ["var", "bool"], False), "ns": (False, [], "ns"), "only": (False, [], False),
     "sub": (False, ["query"], False), "zzz": (False, [], False), "tnum": (False, [], False),
 }
-COMMON = ["tnum", "add", "add", "cat", "cat", "ident", "argsc", "bo", "fl", "rep", "let", "getvar", "flag", "ns", "attr1", "attr2", "app", "state_variable", "only"]
+COMMON = ["tnum", "add", "add", "cat", "cat", "ident", "nvol", "argsc", "bo", "fl", "rep", "let", "getvar", "flag", "ns", "attr1", "attr2", "app", "state_variable", "only"]
 SPECIAL = ["boom", "vol", "nocache", "zzz", "sub"]
 VARS = ["a", "b", "x", "flagged"]
 
